@@ -24,7 +24,7 @@ pub fn mon() -> Mon {
 
 fn plan(cfg: &RunCfg) -> EncPlan {
     let mut p = EncPlan::new(&REQUEST_FORMS);
-    p.random_per_form = cfg.pick(40_000, 400_000);
+    p.random_per_form = cfg.pick(40_000, 2_000_000);
     p.param_sweep_reps = cfg.pick(24, 200) as u32;
     p.addr_sweep_reps = cfg.pick(1, 10) as u32;
     p
